@@ -16,7 +16,7 @@ from .common import Scenario, elems, shape, mk_array, run_property, assume_not_n
 from .c03 import _same
 from .c01 import tree_snapshot
 
-TARGETS = ["d1", "d2", "d4", "o", "n", "c", "g", "e1"]
+TARGETS = ["d1", "d2", "d4", "o", "n", "c", "g", "e1", "o+n", "d2+d3"]      # "a+b": two adjacent children removed in ONE call
 FOLLOW = ["none", "copy_survivor", "remove_another", "add_data", "reopen_then_copy"]
 
 
@@ -88,26 +88,39 @@ class Remove(Scenario):
                             out.add(k)
                             grew = True
                 return out
-            gone = below(target)
-            t = get(target)
+            pair = target.split("+") if "+" in target else None
+            if pair:
+                gone = below(pair[0]) | below(pair[1])
+                t = get(pair[0])
+                t2 = get(pair[1])
+            else:
+                gone = below(target)
+                t = get(target)
+                t2 = None
             if locked:
                 t.allow_delete = False
                 if lock_then_reopen:        # the permission is then read from the file (a stored flag, not a Python bool)
-                    del t
+                    del t, t2
                     ws.close()
                     ws = Workspace(ws.h5file)
-                    t = get(target)
+                    t = get(pair[0] if pair else target)
+                    t2 = get(pair[1]) if pair else None
                 before = tree_snapshot(ws)
             refused = False
             try:
-                if via_parent:
+                if pair and via_parent:
+                    t.parent.remove_children([t, t2])           # two children of one parent, one call
+                elif pair:
+                    ws.remove_entity(t)
+                    ws.remove_entity(t2)
+                elif via_parent:
                     t.parent.remove_children([t])
                 else:
                     ws.remove_entity(t)
             except Exception as e:  # noqa: BLE001
                 refused = True
                 why = type(e).__name__
-            del t
+            del t, t2
             gc.collect()
             if locked and not via_parent:
                 cx.prove(refused, "the workspace refuses to remove an entity whose delete permission is off", "permission")
@@ -255,7 +268,8 @@ def main(tier, seed):
         outside=["concatenated holes and their data (index arithmetic of their removal: C04)", "other trees / several removals in a row beyond "
                  "one follow-up", "removal through the parent of an entity whose delete permission is off (the statement only covers the workspace "
                  "entry point)"],
-        bounds="removed entity in {data in 2 / 1 / 0 property groups, object with children, nested group, curve, top group, cell data} x "
+        bounds="removed entity in {data in 2 / 1 / 0 property groups, object with children, nested group, curve, top group, cell data, two children "
+               "of a group / of an object in one call} x "
                "{workspace.remove_entity, parent.remove_children} x delete permission {on, off, off and re-read from the file} x follow-up {none, copy a survivor, remove "
                "another entity, add data, re-open then copy}: 8 x 2 x 2 x 5 paths",
         expected_outcomes={"Remove": {"ok"}, "DetachThenClose": {"ok"}},
